@@ -225,6 +225,26 @@ CHECKS = {
              "connection's fields, the peer book (C19) and the objects named above. Sockets/selectors are externals that "
              "may raise anything (A-SOCK); logging is total (A-LOG).",
         technique=PROOF_TECH + "; exceptional post-condition + structural frame/reachability obligations"),
+    'C14': dict(
+        category='proof', design_ref='6/C14',
+        text="Proved from source, for every wallet, chain state, positive amount and non-negative fee: when "
+             "create_spend_transaction returns, its first output pays exactly the amount to the recipient; the inputs' "
+             "total T (sum over the spent outputs, carried through both loops by an invariant and through signing by "
+             "sign_transaction's contract) is >= amount + fee; there is exactly one more output paying T - amount - fee "
+             "to the change key when that is non-zero and none when it is zero; every input references an output that is "
+             "unspent at the head, pays a key of this wallet and is not in the wallet's record of used outputs; afterwards "
+             "the record is exactly the old record plus these inputs; on EVERY exceptional outcome (insufficient funds, "
+             "signing errors) the record is unchanged and nothing else of the wallet is written (frame). sign_transaction "
+             "keeps every reference and the outputs, signs each input over the signable form with the private key the wallet "
+             "holds for the spent output's key, and preserves the spent total. Bounded (not proof): sequences of spends and "
+             "failed attempts on generated ledger states checked with the node's own transaction validators.",
+        note="Assumed: the per-key balance index lists only unspent outputs paying that key (C03 coherence: a PRECONDITION "
+             "of the contract, explored boundedly under C03); iteration over a dict visits keys (A-ITER); ecdsa signing is "
+             "an external stub (A-ECDSA). That the returned transaction passes the node's validation (signatures verify, "
+             "inputs distinct) is exercised, not proved. Known finding (recorded, not repaired): a spend needing more than "
+             "about 1,979 inputs yields a transaction above MAX_BLOCK_SIZE.",
+        technique=PROOF_TECH + "; nested loop invariants with lifted sums, intermediate assertion at the signing call, "
+                  "exceptional post-condition / frame for the failure paths; bounded companion with the real validators"),
     'C16': dict(
         category='proof', design_ref='6/C16',
         text="For every height (all integers >= 0, no enumeration): get_block_subsidy equals the documented schedule "
